@@ -110,6 +110,14 @@ def gen_xpl(rnd):
 ALT_APPLY = "aruba.ap_env.apply"   # a shipped apply logic with its own wrapper: nothing before, 'write memory' after when committing
 
 
+DIALOGS = [
+    [["Sure? [Y/N]:", "Y"]], [["Sure? [Y/N]:", "Y"]], [["/Cont.*/", "yes"], ["Again?", "N"]],
+    # questions that differ only in letter case or blanks are different questions (in a regexp \\d and \\D are opposites)
+    [["/Delete \\d+ files\\?/", "Y"], ["/Delete \\D+ files\\?/", "N"]],
+    [["Continue?", "y"], ["continue?", "n"], ["Con tinue?", "x"]],
+]
+
+
 def gen_deploy(rnd, ptree, depth=0):
     """deploy rules for some rows of this level (by full row text or head + '~'); nested rules only under block rows that got a rule"""
     rules = []
@@ -123,7 +131,7 @@ def gen_deploy(rnd, ptree, depth=0):
             continue
         heads.add(toks[0])
         rules.append({"toks": toks, "timeout": rnd.choice([None, 5, 120]), "apply": ALT_APPLY if rnd.chance(30) else None,
-                      "dialogs": [["Sure? [Y/N]:", "Y"]] if rnd.chance(40) else ([["/Cont.*/", "yes"], ["Again?", "N"]] if rnd.chance(20) else []),
+                      "dialogs": rnd.choice(DIALOGS) if rnd.chance(50) else [],
                       "children": gen_deploy(rnd, ch, depth + 1) if ch else []})
     return rules
 
@@ -148,7 +156,7 @@ def _gen_from(rnd):
     model = rnd.choice(HW[vendor])
     case = {"vendor": vendor, "model": model, "do_commit": rnd.chance(50), "do_finalize": rnd.chance(50)}
     if rnd.chance(40) and vendor in ("huawei", "cisco", "arista", "nexus", "h3c", "b4com", "pc", "iosxr"):
-        rules = RL.gen_rules(rnd)
+        rules = RL.gen_rules(rnd, opts={"force_commit": True})
         ctx = RL.Ctx(rules)
         old = RL.gen_tree(rnd, ctx)
         case.update({"kind": "make_patch", "rules": rules, "old": RL.plain(old), "new": RL.plain(RL.mutate(rnd, ctx, old))})
@@ -265,6 +273,20 @@ def _xpl_endif_diagnosis(got, want):
         if not (prev == "else" or (nxt == "end-filter" and prev is not None and prev.startswith(("if", "elseif")) and prev.endswith("then"))):
             return False
     return True
+
+
+def _dup_commit_diagnosis(got, want):
+    """Is the difference exactly the second listed finding: several 'commit' lines under one block (each following a line that needs its
+    own commit), of which the path-keyed command list keeps the first only?"""
+    gp = _line_paths(got)
+    seen, dedup, dropped = set(), [], []
+    for line, p in zip(got, gp):
+        if p in seen:
+            dropped.append(p)
+            continue
+        seen.add(p)
+        dedup.append(line)
+    return bool(dropped) and dedup == want and all(p[-1] == "commit" for p in dropped)
 
 
 def _parse_stream(cmds, want, keys, wrappers):
@@ -413,6 +435,34 @@ def check(case):
         from annet.api import _diff_and_patch
         _, pt = _diff_and_patch(sut.Dev(hw), RL.to_odict(case["old"]), RL.to_odict(case["new"]), None, None, False, rb=rb)
         deploy = []
+        # with committing disabled, a line that needs its own commit (%force_commit) is left out together with the 'commit' that follows
+        # it - at every depth; everything else stays, in the same order
+        _, pt_nc = _diff_and_patch(sut.Dev(hw), RL.to_odict(case["old"]), RL.to_odict(case["new"]), None, None, False, rb=rb, do_commit=False)
+        rv = sut.registry().match(hw)
+        fmt_ = rv.make_formatter(indent="")
+        rctx = RL.Ctx(case["rules"])
+
+        def needs_commit(path):
+            c = rctx
+            for i, row in enumerate(path):
+                cl = c.classify(row) or (c.classify(row[len(rv.reverse) + 1:]) if row.startswith(rv.reverse + " ") else None)
+                if cl is None:
+                    return False
+                if cl[0].get("force_commit"):
+                    return True
+                c = c.child(cl[0], row)
+            return False
+        all_paths = list(fmt_.cmd_paths(pt).keys())
+        exitw = rv.exit
+        # (a block whose every line was left out is still entered, without an exit line: block exits are not compared)
+        exp_nc = [p for p in all_paths if not needs_commit(p) and p[-1] != "commit" and not (exitw and p[-1] == exitw and len(p) > 1)]
+        got_nc = [p for p in fmt_.cmd_paths(pt_nc).keys() if not (exitw and p[-1] == exitw and len(p) > 1)]
+        if any(needs_commit(p) for p in all_paths):
+            labels.append("force-commit-line")
+        if got_nc != exp_nc:
+            raise Violation("commit-when-disabled", f"{model}: with committing disabled the patch is {got_nc!r}; expected the patch without the "
+                            f"lines that need their own commit and without 'commit': {exp_nc!r}"[:900],
+                            {"model": model, "rulebook": RL.rule_text(case["rules"]), "paths": [list(p) for p in all_paths]})
     else:
         pt = _build(case["patch"])
         deploy = case["deploy"]
@@ -435,7 +485,8 @@ def check(case):
         got = [((len(l) - len(l.lstrip(" "))) // len(unit), l.strip()) for l in lines]
         if got != [(d, c.strip()) for d, c in want]:
             v = Violation("shown-vs-paths", f"{model}: the displayed patch {got!r} differs from the command paths {want!r}"[:700],
-                          dict(det, xpl_second_endif_after_else=_xpl_endif_diagnosis(got, [(d, c.strip()) for d, c in want])))
+                          dict(det, xpl_second_endif_after_else=_xpl_endif_diagnosis(got, [(d, c.strip()) for d, c in want]),
+                               second_commit_in_block=_dup_commit_diagnosis(got, [(d, c.strip()) for d, c in want])))
             labels.append(known_or_raise(PID, v))
             return labels   # the listed class is excluded from the remaining assertions of this case
     if real_vendor == "pc":
